@@ -138,3 +138,91 @@ def source_tie(chk, cases, outs):
                     "disagreeing_cases": len(bad),
                     "correspondence": "tie:C03:py2coq+MiniPy.Interp+MiniTorch:_string_matching(return_mask)",
                     "theorems_at_stake": SRC_THEOREMS}, no_failing_input=True)
+
+
+# ---- second tie: hard_optimal_completion_distillation_loss (unit C03BSrc, PV.C03.SrcRunB) -----------------------------------------
+IMPORTS_SRCB = IMPORTS_SRC + "From PV Require C03.SrcRunB.\n"
+SRCB_TIE_SAMPLE = 300
+SRCB_THEOREMS = ["c03_source_loss_is_model", "c03_source_loss_blocks_is_model", "c03_source_loss_core_is_model",
+                 "c03_source_src_loss_is_model", "c03_source_loss_targets_are_classes",
+                 "c03_source_loss_raises_eos_not_a_class", "c03_source_loss_raises_eos_is_ignore_index",
+                 "c03_source_loss_raises_bad_reduction", "c03_source_loss_none_is_mean_neg_log_prob",
+                 "c03_source_loss_sum_mean_are_reductions"]
+
+
+def _eligible_loss(case, out):
+    """loss calls with a finite float result whose internal optimal_completion call is eligible for the first tie (exact dyadic
+    costs, small tensors); logits are k/4, torch's log_softmax rows are the oracle handed over as a table (regime T)"""
+    return (case["api"] == "loss" and _eligible(case, out) and out.get("val") != "nonfinite"
+            and _dims(case)[2] >= 1 and out.get("dtype") in ("torch.float64", "torch.float32"))
+
+
+def loss_term(case, out):
+    """the whole body of hard_optimal_completion_distillation_loss (and its four blocks in sequence), interpreted, against
+    the value this run's call returned (tolerance as for the model: torch sums in floating point)"""
+    from fractions import Fraction
+    from vlib import co, cq
+    from props import c03 as p
+    N, R, H = _dims(case)
+    bf = case["batch_first"]
+    ref, hyp = _mat(case["ref"], R, bf), _mat(case["hyp"], H, bf)
+    lg = case["logits"]   # [H][N][V] quarters
+    rows = [[lg[h][n] for h in range(H)] for n in range(N)] if bf else lg
+    logits = cl([cl([cl([cq(Fraction(k, 4)) for k in v]) for v in row]) for row in rows])
+    w = co(None if case["weight"] is None else cl([cq(Fraction(k, 4)) for k in case["weight"]]))
+    red = case["reduction"]
+    if red == "none":
+        if out["shape"] != ([N, H] if bf else [H, N]):
+            return "false"
+        grid, scalar = cl([cl([p._q(x) for x in row]) for row in out["val"]]), "0%Q"
+    else:
+        if out["shape"] != []:
+            return "false"
+        grid, scalar = "[]", p._q(out["val"])
+    return (f"C03.SrcRunB.src_loss_check {_cfg(dict(case, exclude_last=True))} {w} {p.REDS[red]} {cz(_scale(case))} {cn(N)} "
+            f"{cn(case['V'])} {ref} {hyp} {logits} {p._logp(case)} {cq(p._tol(case))} {grid} {scalar}")
+
+
+def source_tieB(chk, cases, outs):
+    from vlib import CoqError
+    idx = [i for i, (c, o) in enumerate(zip(cases, outs)) if _eligible_loss(c, o)]
+    if len(idx) > SRCB_TIE_SAMPLE:  # evenly spaced over the streams
+        step = len(idx) / SRCB_TIE_SAMPLE
+        idx = [idx[int(j * step)] for j in range(SRCB_TIE_SAMPLE)]
+    chk.extra["source_tieB"] = {
+        "unit": "C03BSrc", "theorems": SRCB_THEOREMS,
+        "what": "the whole body of hard_optimal_completion_distillation_loss (_string.py; its call of optimal_completion = the "
+                "first tie's interpreted oc_body), translated on every run, interpreted in Coq (PV.C03.SrcRunB.src_loss_check; "
+                "log_softmax rows = torch's, handed over as the oracle table)"}
+    if not idx:
+        chk.extra["source_tieB_run"] = {"cases": 0, "disagreements": 0}
+        return
+    t0 = time.time()
+    try:
+        terms = [loss_term(cases[i], outs[i]) for i in idx]
+        res = coq_eval_bools(chk.workdir, IMPORTS_SRCB, terms, shard=12, tag="src3b")
+    except (CoqError, Exception) as e:  # noqa
+        chk.extra["source_tieB_run"] = "not evaluated: " + str(e)[-400:]
+        return
+    bad = [j for j, ok in enumerate(res) if not ok]
+    cs = [cases[i] for i in idx]
+    chk.extra["source_tieB_run"] = {
+        "cases": len(idx), "disagreements": len(bad), "wall_s": round(time.time() - t0, 1),
+        "reduction": {r: sum(1 for c in cs if c["reduction"] == r) for r in ("none", "sum", "mean")},
+        "with_weight": sum(1 for c in cs if c["weight"] is not None),
+        "batch_first": sum(1 for c in cs if c["batch_first"]),
+        "with_eos": sum(1 for c in cs if c["eos"] is not None),
+        "ignore_index_values": sorted({c["padding"] for c in cs}),
+        "float32_logits": sum(1 for c in cs if c.get("f32")),
+        "max_V": max(c["V"] for c in cs), "max_H": max(_dims(c)[2] for c in cs)}
+    chk.count("source_tieB_cases", len(idx))
+    if bad:
+        j = bad[0]
+        chk.report({"case": cases[idx[j]], "impl": outs[idx[j]],
+                    "what": "the Python source of hard_optimal_completion_distillation_loss as translated to MiniPy and "
+                            "interpreted in Coq (PV.C03.SrcRunB.src_loss_check, torch calls = PV.MiniTorch.OpsC03B / OpsC03 / "
+                            "OpsC01 / OpsC07, log_softmax = torch's values) does not reproduce the loss the implementation "
+                            "returned: translator / interpreter / ext03B / MiniTorch no longer describe the code",
+                    "disagreeing_cases": len(bad),
+                    "correspondence": "tie:C03:py2coq+MiniPy.Interp+MiniTorch:hard_optimal_completion_distillation_loss",
+                    "theorems_at_stake": SRCB_THEOREMS}, no_failing_input=True)
